@@ -30,10 +30,10 @@ func (c config) options() map[string]string {
 }
 
 type minResult struct {
-	out     string
-	err     error
+	out      string
+	err      error
 	panicked string
-	timeout bool
+	timeout  bool
 }
 
 func minifyJS(src string, c config) minResult {
